@@ -924,6 +924,9 @@ def model_specs(tier):
                                                                        output_initialization=[0.0, 1.0])))
   specs.append(dict(kind='ensemble', features=[A, Bd, N], model=dict(lattices='rtl_layer', num_lattices=2, lattice_rank=2, random_seed=1,
                                                                        output_min=0.0, output_max=1.0, output_initialization=[0.0, 1.0])))
+  # falsy zeros as default (missing) values of a numeric and of a categorical feature
+  specs.append(dict(kind='lattice', features=[NUM('a', 'increasing', default=0.0, keypoints=[-1.0, 1.0, 2.0]), CAT('c', 3, [[1, 2]], default=0)],
+                    model=dict(output_min=0.0, output_max=1.0, output_initialization=[0.0, 1.0])))
   # RTL: the arrangement of monotone and unconstrained inputs inside a lattice depends on the seed
   for seed, nl in ((2, 2), (3, 3), (5, 3)):
     specs.append(dict(kind='ensemble', features=[A, Bd, N, NUM('m', 'none')],
@@ -977,6 +980,8 @@ def jobs_for(spec):
           continue
         seen.append(ch)
         for a, b in f.get('pairs') or []:
+          if f.get('default') is not None and f['default'] in (a, b):
+            continue     # an id equal to the default value is a MISSING input: the property orders non-missing points
           jobs.append(('model', dict(spec=spec, vary=[f['name'], [a, b]], cat_ids=ch)))
     elif f.get('mono', 'none') != 'none':
       d = 1 if f['mono'] in (1, 'increasing') else -1
